@@ -621,6 +621,28 @@ def make_group_copies_case(seed, fmt="glyf_colr_1"):
     return {"id": f"group-copies:{fmt}:{seed}", "seed": seed, "fmt": fmt, "svgs": [svg], "config": cfg, "codepoints": [[0xE000]], "family": "group-copies"}
 
 
+
+def make_fade_gradient_case(seed, fmt="glyf_colr_1"):
+    """a small opaque shape in front of a LARGE shape filled by a gradient whose FIRST stop is fully transparent (a fade-in / vignette): the large
+    shape is visible wherever the later stops are, and is the one that decides the extent of the glyph"""
+    import random
+
+    r = random.Random(seed)
+    x0, y0, x1, y1 = r.choice([(5, 10, 95, 90), (2, 4, 98, 60), (10, 2, 60, 98)])
+    if r.random() < 0.5:
+        grad = (f'<linearGradient id="g" gradientUnits="userSpaceOnUse" x1="{x0}" y1="{y0}" x2="{x1}" y2="{y1 if r.random() < 0.5 else y0}">'
+                f'<stop offset="0" stop-color="#0000ff" stop-opacity="0"/><stop offset="{r.choice([0.5, 1])}" stop-color="#0000ff"/></linearGradient>')
+    else:
+        grad = (f'<radialGradient id="g" gradientUnits="userSpaceOnUse" cx="{(x0 + x1) / 2}" cy="{(y0 + y1) / 2}" r="{max(x1 - x0, y1 - y0) / 2}">'
+                f'<stop offset="0" stop-color="#ffcc00" stop-opacity="0"/><stop offset="1" stop-color="#cc0000"/></radialGradient>')
+    small = f'<path d="M40,40 L60,40 L60,60 L40,60 Z" fill="{r.choice(["#00AA00", "#222222"])}"/>'
+    big = f'<path d="M{x0},{y0} L{x1},{y0} L{x1},{y1} L{x0},{y1} Z" fill="url(#g)"/>'
+    body = (big + small) if r.random() < 0.7 else (small + big)
+    svg = f'<svg xmlns="http://www.w3.org/2000/svg" viewBox="0 0 100 100"><defs>{grad}</defs>{body}</svg>'
+    cfg = {"color_format": fmt, "upem": 1000, "ascender": 1000, "descender": 0, "width": 1000, "reuse_tolerance": 0.1, "keep_glyph_names": True,
+           "clipbox_quantization": r.choice([None, 1, 10])}
+    return {"id": f"fade-gradient:{fmt}:{seed}", "seed": seed, "fmt": fmt, "svgs": [svg], "config": cfg, "codepoints": [[0xE000]], "family": "fade-gradient"}
+
 def make_unsorted_names_case(seed, fmt="picosvg", share=False):
     """glyphs whose input order is not the order of their glyph names (u1F600, u263A, B …) and which share NO outline (every reuse group is a single
     glyph), or (share=True) where only the first and last share one"""
